@@ -179,7 +179,7 @@ var l2MaccPerms = map[string][]string{
 
 func NewL2(db dbm.DB, gen *L2Genesis, opts L2Options, plans []PlanReg) *L2 {
 	enc := MakeEncoding()
-	n := &L2{DB: db, Enc: enc, Fault: &FaultState{}}
+	n := &L2{DB: db, Enc: enc, Fault: &FaultState{Record: true}}
 	bopts := []func(*baseapp.BaseApp){baseapp.SetChainID(L2ChainID)}
 	if opts.MinGasPrices != "" {
 		bopts = append(bopts, baseapp.SetMinGasPrices(opts.MinGasPrices))
